@@ -169,7 +169,7 @@ pub fn run(run: &Run) {
     }
     let slow = matches!(run.opts.variant.as_str(), "asan" | "miri" | "valgrind");
     let miri = run.opts.variant == "miri";
-    let max_len = if miri { 20 } else { 40 };
+    let max_len = if miri { 34 } else { 40 };
 
     // every (length, pattern, anchor) combination
     let mut cases: Vec<(Vec<u8>, usize)> = Vec::new();
@@ -196,11 +196,9 @@ pub fn run(run: &Run) {
     }
     if miri {
         // keep the interpreter run short: a slice of the cases
-        let keep = run.opts.size(1, 1).max(1);
-        let _ = keep;
         let mut r = Rng::derive(seed, "c10-miri", 0);
         r.shuffle(&mut cases);
-        cases.truncate(if run.opts.thorough() { 60 } else { 24 });
+        cases.truncate(if run.opts.thorough() { 640 } else { 24 });
     }
     run.note("pattern_anchor_cases", json!(cases.len()));
     run.exhaustive("anchors", !miri);
@@ -341,7 +339,7 @@ pub fn run(run: &Run) {
     });
 
     // ---- determinism: recompilations with the random anchor agree
-    let n = if miri { 3 } else { run.opts.size(150, 2_000) };
+    let n = if miri { 32 } else { run.opts.size(150, 2_000) };
     let recompiles = if miri { 4 } else if slow { 10 } else { 50 };
     run.parallel("recompile", n, |i, l| {
         let mut r = Rng::derive(seed, "c10-re", i);
